@@ -262,6 +262,14 @@ def history_layer(ctx, nhist, maxlen):
             ctx.samples.append({'case': 'history', 'steps': repr(steps)[:400]})
 
 
+NULL_TEXTS = [
+    ('SELECT i, %(note)s AS note FROM #t WHERE j >= %(min)s', {'note': None, 'min': 0}),
+    ('SELECT i, %s AS note FROM #t WHERE j >= %s', (None, 0)),
+    ('SELECT coalesce(%(a)s, %(b)s, i) AS c FROM #t', {'a': None, 'b': None}),
+    ('SELECT i FROM #t WHERE %(x)s IS NULL AND i > %(y)s', {'x': None, 'y': 0}),
+]
+
+
 ORDER_TEXTS = [
     # every placeholder gets a different value, so any permutation of the binding order shows
     ('SELECT %s AS a, b, c FROM (SELECT %s AS b, %s AS c FROM #t LIMIT 1) WHERE %s = 4', (1, 2, 3, 4)),
@@ -275,6 +283,20 @@ def order_layer(ctx):
     """positional binding is textual order, also where compilation order differs (FROM subqueries, nesting, HAVING)"""
     rng = ctx.rng
     table = std_table(rng, nrows=4, small=True)
+    for text, params in NULL_TEXTS:
+        # NULL is a value like any other: the statement behaves as with the literal NULL
+        parsed = parser.parse(text)
+        lit = substitute(parsed, (lambda n: params[n.name]) if isinstance(params, dict) else
+                         (lambda n, it=iter(params): next(it)))
+        SqlCase([table], parser.parse(text), params if isinstance(params, dict) else list(params), name='bind-null').check(ctx)
+        conn = impl.connection([table])
+        a = impl.run_select(conn, text, params if isinstance(params, dict) else list(params))
+        b = impl.run_select(conn, lit)
+        ctx.count('null-parameter-oracle')
+        ctx.evaluations += 1
+        if _strip_names(a) != _strip_names(b):
+            ctx.record_violation('parameters-differ-from-literals', '%s %r | %s | %s' % (text, params, a[:200], b[:200]),
+                                 payload=SqlCase([table], text, params).payload())
     for text, params in ORDER_TEXTS:
         parsed = parser.parse(text)
         phs = sorted([n for n in parsed.walk() if isinstance(n, ast.Placeholder)], key=lambda n: n.parseinfo.pos)
